@@ -267,7 +267,13 @@ impl Callable for If {
             bail!("Condition type {:?} is not a Boolean", cond);
         }
         if yes != no {
-            bail!("Condition return type must be same: {:?} {:?}", yes, no);
+            // the bindings of two `let`s are different objects: compare what they stand for
+            let same = matches!((&yes, &no), (Type::NativeObject(a), Type::NativeObject(b))
+                    if a.as_evaluatable().is_some() && b.as_evaluatable().is_some())
+                && args[1].real_type_of(ctx.clone())? == args[2].real_type_of(ctx)?;
+            if !same {
+                bail!("Condition return type must be same: {:?} {:?}", yes, no);
+            }
         }
         Ok(yes.unify(no))
     }
@@ -294,9 +300,11 @@ impl std::fmt::Debug for ScopeBinding {
     }
 }
 
+// Native object types compare by hash. The same expression bound in two scopes can resolve to values of
+// different types, so a binding is only ever equal to itself.
 impl std::hash::Hash for ScopeBinding {
     fn hash<H: std::hash::Hasher>(&self, state: &mut H) {
-        self.value.hash(state);
+        std::ptr::hash(self, state);
     }
 }
 
